@@ -223,7 +223,7 @@ class LogFile(BaseLogFile):
         Return sorted list of integers - the old logs' identifiers.
         """
         result = []
-        for name in glob.glob("%s.*" % self.path):
+        for name in glob.glob("%s.*" % glob.escape(self.path)):
             try:
                 counter = int(name.split(".")[-1])
                 if counter:
